@@ -78,7 +78,15 @@ func (r *Parser) Next(f *Field) bool {
 		// are made, compared to the previous usage – allocations are now made per event, not per field value.
 		r.fieldScanner.Reset(r.inputScanner.Text())
 
-		return r.fieldScanner.Next(f)
+		if r.fieldScanner.Next(f) {
+			return true
+		}
+		if r.fieldScanner.Err() != nil {
+			return false
+		}
+		// The chunk had no fields at all (only comments or unknown fields). That is not the
+		// end of the input yet: keep going, so that Err reports how the input really ended.
+		return r.Next(f)
 	}
 
 	return true
